@@ -207,9 +207,11 @@ def task_send(args):
     classes = set()
     cfg = {'local_as': 65001, 'remote_as': 65001 if ibgp else 65002}
     msgs = session_messages(remote_as=cfg['remote_as'])
-    for idx, (attr, nlri, wd) in enumerate(chunk):
+    for idx, case in enumerate(chunk):
+        attr, nlri, wd = case[:3]
         # every third case after a session flap: "the current connection" is then the second one
-        hist = STATES['established'] if idx % 3 else STATES['established'] + [
+        flap = case[3] if len(case) > 3 else not idx % 3
+        hist = STATES['established'] if not flap else STATES['established'] + [
             ('REST', 'warmup'), ('PEER_CLOSE', 0), ('TICK', 0), ('CONN_OK', 0), ('RX', 0, 'OPEN_OK'), ('RX', 0, 'KA')]
         msgs = dict(msgs)
         msgs['@warmup'] = ('POST', '/v1/peer/<ip>/send/update', {'attr': {'1': 0, '2': [], '3': '10.0.0.1'}, 'nlri': ['10.99.0.0/16']})
@@ -222,7 +224,7 @@ def task_send(args):
         new = [d for _, d in t.writes[before:]]
         other = [e for e in obs if e[0] in ('lose', 'connect', 'abort') or (e[0] == 'write' and e[1] != t.tid)]
         cls = ('attrs' if attr else 'no-attrs', 'nlri' if nlri else 'no-nlri', 'withdraw' if wd else 'no-withdraw', 'ibgp' if ibgp else 'ebgp')
-        cls = cls + ('first-session' if idx % 3 else 'after-session-flap',)
+        cls = cls + ('after-session-flap' if flap else 'first-session',)
         classes.add(cls + (isinstance(js, dict) and js.get('status'),))
         label = '/'.join(cls)
         ok = st == 200 and isinstance(js, dict) and js.get('status') is True
@@ -230,7 +232,7 @@ def task_send(args):
             viol.append(('C16|iii|send/update raised|%s' % label, {'exc': exc, 'request': body}))
             continue
         if other:
-            viol.append(('C16|iii|send had a side effect besides the write|%s' % label, {'effects': other}))
+            viol.append(('C16|iii|send had a side effect besides the write|%s' % label, {'effects': other, 'request': body}))
         if not ok:
             if new:
                 viol.append(('C16|iii|send reported failure but wrote to the peer|%s' % label, {'request': body, 'json': js}))
@@ -340,11 +342,11 @@ def run(tier, seed):
     explore.close_pool()
     total = 0
     classes = set()
-    for n, viol, cl in results:
+    for t, (n, viol, cl) in zip(tasks, results):
         total += n
         classes |= cl
         for k, det in viol:
-            col.add(k, det, det)
+            col.add(k, det, det, task=t)
     n_new, n_known, summary = col.finish('c16-request')
     nrules = len(rules())
     cov = {
@@ -373,13 +375,13 @@ def replay(path):
     key = d['key']
     if key.startswith(('C16|i|', 'C16|ii|', 'C16|view')):
         state = w.get('state') or key.split('|')[-1]
-        runs = [task_auth((state,)) for _ in range(2)]
+        runs = report.twice(task_auth, (state,))
     elif 'request' in w and 'attr' in (w.get('request') or {}):
         r = w['request']
-        ibgp = key.endswith('ibgp')
-        runs = [task_send((ibgp, [(r['attr'], r['nlri'], r['withdraw'])])) for _ in range(2)]
+        ibgp = '/ibgp/' in key
+        runs = report.twice(task_send, (ibgp, [(r['attr'], r['nlri'], r['withdraw'], key.endswith('after-session-flap'))]))
     else:
-        runs = [task_rr_bin(()) for _ in range(2)]
+        runs = report.twice(task_rr_bin, ())
     if repr(runs[0][1]) != repr(runs[1][1]):
         print('HARNESS-ERROR: replay is not deterministic')
         return 2
@@ -390,4 +392,6 @@ def replay(path):
             print('  ', json.dumps(det, default=str)[:1500])
             break
     print('violation keys on replay:', sorted(set(keys))[:20])
-    return 1 if key in keys else 0
+    if key in keys:
+        return 1
+    return report.replay_in_task(d, _dispatch)
